@@ -3,6 +3,7 @@ package main
 // Phase-2 evaluation: C12 ($repeat), C13 (interpolation, $env), C14 ($encode/$decode), C07.encode.
 
 import (
+	"go/types"
 	"fmt"
 	"sort"
 	"strings"
@@ -435,10 +436,13 @@ func ruleC12Loops(p *Prog, r *Result) {
 		loops := countedLoops(fn)
 		// every loop of the function with a numeric induction variable must be 0 <= i < n, step 1
 		nInd := 0
-		for _, b := range fn.Blocks {
-			for _, in := range b.Instrs {
-				if phi, ok := in.(*ssa.Phi); ok && phi.Comment == "i" {
-					nInd++
+		for _, h := range loopHeaders(fn) {
+			for _, in := range h.Instrs {
+				// integer induction variables of explicit for-loops (range loops carry the synthetic rangeindex)
+				if phi, ok := in.(*ssa.Phi); ok && phi.Comment != "" && phi.Comment != "rangeindex" {
+					if bt, isB := phi.Type().Underlying().(*types.Basic); isB && bt.Info()&types.IsInteger != 0 {
+						nInd++
+					}
 				}
 			}
 		}
@@ -452,12 +456,8 @@ func ruleC12Loops(p *Prog, r *Result) {
 		switch b := l.bound.(type) {
 		case *ssa.Parameter:
 			okBound = b.Name() == "count"
-		case *ssa.Extract:
-			if ta, ok := b.Tuple.(*ssa.TypeAssert); ok && b.Index == 0 {
-				if par, ok := ta.X.(*ssa.Parameter); ok && par.Name() == "r" && ta.AssertedType.String() == "int" {
-					okBound = true
-				}
-			}
+		default:
+			okBound = intOfParam(p, l.bound, "r", 0)
 		}
 		r.Check(okBound, "C12.loop", s.fn+" / loop bound is the $repeat count", pos, "i < n with n the count", "the loop bound is not the $repeat count itself")
 		// the index bound to the variable is i itself, on a context cloned inside the iteration
@@ -899,4 +899,52 @@ func interpPatternOK(pat string) bool {
 func isFailure2(pa *Path) bool {
 	e := lastResult(pa)
 	return e != nil && strings.HasPrefix(errClass(e), "wraps:")
+}
+
+// intOfParam: v is the parameter named name asserted to int — directly (v, ok := name.(int)) or through a
+// private helper that does exactly that with its own parameter and returns it on every successful return.
+func intOfParam(p *Prog, v ssa.Value, name string, depth int) bool {
+	if depth > 2 {
+		return false
+	}
+	ex, ok := v.(*ssa.Extract)
+	if !ok || ex.Index != 0 {
+		return false
+	}
+	switch t := ex.Tuple.(type) {
+	case *ssa.TypeAssert:
+		par, ok := t.X.(*ssa.Parameter)
+		return ok && par.Name() == name && t.AssertedType.String() == "int"
+	case *ssa.Call:
+		callee := t.Call.StaticCallee()
+		if callee == nil || !p.InRepo(callee) || len(callee.Blocks) == 0 {
+			return false
+		}
+		// which callee parameter receives our parameter?
+		inner := ""
+		for i, a := range t.Call.Args {
+			if par, ok := a.(*ssa.Parameter); ok && par.Name() == name && i < len(callee.Params) {
+				inner = callee.Params[i].Name()
+			}
+		}
+		if inner == "" {
+			return false
+		}
+		n := 0
+		for _, b := range callee.Blocks {
+			ret, ok := b.Instrs[len(b.Instrs)-1].(*ssa.Return)
+			if !ok {
+				continue
+			}
+			if failureReturn(ret) {
+				continue
+			}
+			n++
+			if !intOfParam(p, retValue(ret, 0), inner, depth+1) {
+				return false
+			}
+		}
+		return n > 0
+	}
+	return false
 }
